@@ -86,5 +86,6 @@ let twnest (args : string list) : string =
 let () =
   Registry.register "twnest" twnest;
   Registry.register "lr" lr;
+  Registry.register "lrl" lr;   (* the wrapped reader also has a Len method: same behaviour *)
   Registry.register "lrx" lrx;
   Registry.register "tw" tw
